@@ -53,6 +53,8 @@ def Kind.canRaise : Kind → Bool
 
 inductive CKind where
   | saveCwd | tryBegin | finallyBegin | tryEnd | chdirTarget | chdirSaved | yield | other | unknown
+  | mkdir        -- the context manager itself creates a directory
+  | fsEffect     -- … or touches the file system in another way (open for writing, write_text, unlink, rename, …)
   deriving DecidableEq, Repr
 
 structure CStep where
@@ -65,6 +67,11 @@ structure CStep where
 Switching *back* to the saved directory is assumed to succeed (hypothesis OsOk). -/
 def CKind.canRaise : CKind → Bool
   | .saveCwd | .chdirTarget | .yield | .other | .unknown => true
+  | _ => false
+
+/-- steps of the context manager that change the file system -/
+def CKind.isFsEffect : CKind → Bool
+  | .mkdir | .fsEffect => true
   | _ => false
 
 /-! ### the context manager `chdir` -/
@@ -300,6 +307,65 @@ means what the caller meant. -/
 def onlyParseInsideChdir (pre loopBody post : List Step) : Bool :=
   (insideChdir pre false).all (fun s => s.what == "parser.parse") && !(insideChdir pre false).isEmpty &&
   (loopBody ++ post).all (fun s => s.kind != .chdirEnter && s.kind != .osChdir)
+
+/-! ### every path through `generate()`, the context managers it enters included -/
+
+/-- what matters about a step for the order of effects and failures: does it change the file system, may it raise -/
+structure FlatStep where
+  effect : Bool
+  raises : Bool
+  what : String
+  deriving DecidableEq, Repr
+
+def flatOfStep (s : Step) : FlatStep := ⟨s.kind.isFsEffect, s.kind.canRaise, s.what⟩
+
+/-- a step of the context manager; the `yield` is where the body of the `with` runs — the body's own steps follow in the
+flattened list, so the `yield` itself is neither an effect nor a failure -/
+def flatOfC (c : CStep) : FlatStep :=
+  ⟨c.kind.isFsEffect, c.kind.canRaise && c.kind != .yield, "chdir(): " ++ c.what⟩
+
+/-- what the context manager does on `__enter__` (up to the `yield`) … -/
+def ctxEnter (cs : List CStep) : List CStep := cs.takeWhile (·.kind ≠ .yield)
+/-- … and on `__exit__` (after the `yield`) -/
+def ctxExit (cs : List CStep) : List CStep := (cs.dropWhile (·.kind ≠ .yield)).drop 1
+
+/-- the steps of a segment of `generate()` with the steps of the context manager in place of `with chdir(…):` / the end of
+its block -/
+def inlineCtx (cs : List CStep) : List Step → List FlatStep
+  | [] => []
+  | s :: r =>
+    match s.kind with
+    | .chdirEnter => (ctxEnter cs).map flatOfC ++ inlineCtx cs r
+    | .chdirExit => (ctxExit cs).map flatOfC ++ inlineCtx cs r
+    | _ => flatOfStep s :: inlineCtx cs r
+
+/-- ONE PATH through `generate()`: everything up to the write loop (context managers inlined), `n` iterations of the write
+loop, what follows -/
+def fullPath (cs : List CStep) (pre body post : List Step) (n : Nat) : List FlatStep :=
+  inlineCtx cs pre ++ (List.replicate n (body.map flatOfStep)).flatten ++ post.map flatOfStep
+
+/-- no step that changes the file system is followed — anywhere later on the path — by a step that may raise -/
+def noEffectBeforeRaise : List FlatStep → Bool
+  | [] => true
+  | s :: r => (!s.effect || r.all (fun t => !t.raises)) && noEffectBeforeRaise r
+
+/-- decidable side condition on the extracted tables: nothing up to the write loop — the steps of the context manager
+included — changes the file system, nothing in or after the write loop may raise -/
+def effectsAfterRaises (cs : List CStep) (pre body post : List Step) : Bool :=
+  (inlineCtx cs pre).all (fun t => !t.effect) && (body ++ post).all (fun s => !s.kind.canRaise)
+
+/-- the step that breaks it: the first effect before the write loop (context manager included), else the first may-raise
+step in or after the loop -/
+def effectRefuter (cs : List CStep) (pre body post : List Step) : Option String :=
+  match (inlineCtx cs pre).find? (·.effect) with
+  | some t => some ("effect-before-raise " ++ t.what)
+  | none => ((body ++ post).find? (·.kind.canRaise)).map (fun s => "raise-after-effect " ++ s.what)
+
+/-- the effect steps the context manager executes on entering when step `fault` (if any) raises: what a failed run finds
+on disk although `generate()` itself has not reached its write loop -/
+def ctxEffectsBefore (cs : List CStep) (fault : Option Nat) : List CStep :=
+  (((ctxEnter cs).zipIdx.filter (fun p => match fault with | some i => decide (p.2 < i) | none => true)).map (·.1)).filter
+    (·.kind.isFsEffect)
 
 /-! ### where the parse (and with it the formatting stage) runs -/
 
